@@ -402,3 +402,347 @@ Proof.
   pose proof (level_limit_count (maximize c) L (fun i => d_lvl (dnth i (demes s))) (active_at (demes s)) cands l I) as C.
   destruct (hib_on c); rewrite ?SH, DS; lia.
 Qed.
+
+(* ================================================================ Inv4 (C06): stopping is final; an inactive deme is frozen *)
+Definition frozen_rel (l l' : list deme) : Prop :=
+  length l <= length l' /\
+  forall i, i < length l -> d_active (dnth i l) = false ->
+    d_active (dnth i l') = false /\ d_evals (dnth i l') = d_evals (dnth i l) /\ d_meta (dnth i l') = d_meta (dnth i l).
+
+Lemma frozen_step c s e s' : PcOK c s -> step c s e = Some s' -> frozen_rel (demes s) (demes s').
+Proof.
+  intros P H. unfold PcOK in P. step_cases H; kind_cases; bd; cbn [demes].
+  all: try (destruct P as (_ & Pf); inversion Pf as [|? ? (Hd & Ha & _) _]; subst).
+  all: try solve [ split; [rewrite ?upd_length; lia|]; intros i Hi Hin; destruct (Nat.eq_dec i d) as [->|N];
+                   [congruence | rewrite !dnth_upd_other by auto; auto] ].
+  all: try solve [ split; [lia|]; auto ].
+  - split; [rewrite map_length; lia|]. intros i Hi Hin. rewrite dnth_map by assumption. simpl. auto.
+  - sprout_abs. assert (forall i, i < length (demes s) ->
+        dnth i (do_sprout (mcount s) seeds inits (fun i => d_lvl (dnth i (demes s))) (demes s)) = dnth i (demes s)) as Pre
+      by (intros; now apply do_sprout_prefix).
+    destruct (hib_on c).
+    + split; [rewrite set_hibs_length, do_sprout_length; lia|]. intros i Hi Hin.
+      rewrite set_hibs_dnth by (rewrite do_sprout_length; lia). rewrite Pre by assumption.
+      destruct (existsb _ _); simpl; auto.
+    + split; [rewrite do_sprout_length; lia|]. intros i Hi Hin. rewrite Pre by assumption. auto.
+Qed.
+
+(* ================================================================ Inv5 (C06): every deme that was active and awake advances by exactly one metaepoch *)
+Definition appended (k : dkind) (sub : dsub) : bool :=
+  match k, sub with
+  | KSampler, SGen => false | KSampler, _ => true
+  | KPop, SLsc | KCma, SLsc | KCma, SCma2 => true
+  | _, _ => false
+  end.
+Definition sub_ok (k : dkind) (sub : dsub) : bool :=
+  match k, sub with
+  | KLocal, SLocal => true | KLocal, _ => false
+  | _, SLocal => false
+  | KPop, (SCma | SCma2) | KSampler, (SCma | SCma2) => false
+  | _, _ => true
+  end.
+Definition once_cur (c : cfg) (ds : list deme) (t : list nat) (d : nat) (sub : dsub) : Prop :=
+  sub_ok (kind_of c (d_lvl (dnth d ds))) sub = true /\
+  forall i, i < length ds ->
+    (In i t -> d_meta (dnth i ds) = d_meta0 (dnth i ds)) /\
+    (i = d -> d_meta (dnth i ds) = d_meta0 (dnth i ds) + b2n (appended (kind_of c (d_lvl (dnth i ds))) sub)) /\
+    (~ In i t -> i <> d -> d_meta (dnth i ds) = d_meta0 (dnth i ds) + b2n (d_should (dnth i ds))).
+Definition once_rest (ds : list deme) : Prop :=
+  forall i, i < length ds -> d_meta (dnth i ds) = d_meta0 (dnth i ds) + b2n (d_should (dnth i ds)).
+Definition ONCE (c : cfg) (s : st) : Prop :=
+  match pc s with PDeme t d g sub => once_cur c (demes s) t d sub | _ => once_rest (demes s) end.
+
+(* the running deme finished (its record now says meta = meta0 + 1) : the next one starts *)
+Lemma once_finish c ds ds' t d sub s :
+  NoDup (d :: t) -> Forall (okd c ds) (d :: t) -> once_cur c ds t d sub ->
+  length ds' = length ds -> (forall i, i <> d -> dnth i ds' = dnth i ds) ->
+  d_meta (dnth d ds') = d_meta0 (dnth d ds') + 1 -> d_should (dnth d ds') = true ->
+  demes s = ds' -> ONCE c (begin_deme c t s).
+Proof.
+  intros Hn Hf (Hs & Ho) HL Hoth Hm Hsh Hds. unfold ONCE. rewrite begin_deme_pc. inversion Hn as [|? ? Hni Hnt]; subst.
+  destruct t as [|d' t'].
+  - rewrite (proj1 (begin_deme_fields c [] s)). intros i Hi. rewrite HL in Hi.
+    destruct (Nat.eq_dec i d) as [->|N]; [rewrite Hm, Hsh; reflexivity|].
+    rewrite Hoth by assumption. apply (Ho i Hi); auto.
+  - rewrite (proj1 (begin_deme_fields c (d' :: t') s)).
+    assert (d' <> d) as Nd by (intros ->; apply Hni; now left).
+    inversion Hnt as [|? ? Hni' _]; subst. split.
+    + rewrite Hoth by assumption. destruct (kind_of c (d_lvl (dnth d' ds))); reflexivity.
+    + intros i Hi. rewrite HL in Hi. repeat split.
+      * intros Hin. assert (i <> d) by (intros ->; apply Hni; now right). rewrite Hoth by assumption. apply (Ho i Hi). now right.
+      * intros ->. rewrite Hoth by assumption. destruct (Ho d' Hi) as (A & _). rewrite A by now left.
+        destruct (kind_of c (d_lvl (dnth d' ds))); simpl; lia.
+      * intros Hnin Nid'. destruct (Nat.eq_dec i d) as [->|N]; [rewrite Hm, Hsh; reflexivity|].
+        rewrite Hoth by assumption. apply (Ho i Hi); auto. intros [->|Hin]; auto.
+Qed.
+
+(* the running deme stays the running deme: its record changed as [sub -> sub'] prescribes *)
+Lemma once_stay c ds ds' t d sub sub' :
+  once_cur c ds t d sub -> d < length ds -> ~ In d t ->
+  length ds' = length ds -> (forall i, i <> d -> dnth i ds' = dnth i ds) ->
+  d_lvl (dnth d ds') = d_lvl (dnth d ds) -> d_meta0 (dnth d ds') = d_meta0 (dnth d ds) ->
+  sub_ok (kind_of c (d_lvl (dnth d ds))) sub' = true ->
+  d_meta (dnth d ds') + b2n (appended (kind_of c (d_lvl (dnth d ds))) sub) = d_meta (dnth d ds) + b2n (appended (kind_of c (d_lvl (dnth d ds))) sub') ->
+  once_cur c ds' t d sub'.
+Proof.
+  intros (Hs & Ho) Hd Hnin HL Hoth Hl H0 Hs' Hm. split; [now rewrite Hl|]. intros i Hi. rewrite HL in Hi.
+  destruct (Nat.eq_dec i d) as [->|N].
+  - destruct (Ho d Hi) as (A & B & C). repeat split; try tauto.
+    intros _. rewrite Hl, H0. specialize (B eq_refl). lia.
+  - rewrite Hoth by assumption. destruct (Ho i Hi) as (A & B & C). repeat split; auto. intros ->. contradiction.
+Qed.
+
+Ltac upd_d := repeat rewrite dnth_upd_same by (rewrite ?upd_length; assumption).
+Ltac side_upd :=
+  first [ solve [rewrite ?upd_length; reflexivity]
+        | solve [let i := fresh "i" in let Hne := fresh "Hne" in intros i Hne; rewrite ?dnth_upd_other by auto; reflexivity] ].
+
+Lemma ONCE_init c n : ONCE c (init n).
+Proof. unfold ONCE, once_rest. simpl. intros [|i] Hi; [reflexivity|lia]. Qed.
+
+Lemma ONCE_step c s e s' : WFT c s -> PcOK c s -> ONCE c s -> step c s e = Some s' -> ONCE c s'.
+Proof.
+  intros W P I H. unfold PcOK in P. unfold ONCE in I. step_cases H; kind_cases; bd.
+  all: try (destruct P as (Hn & Hf); pose proof Hn as Hn'; inversion Hn' as [|? ? Hni Hnt]; subst;
+            pose proof Hf as Hf'; inversion Hf' as [|? ? (Hd & Ha & Hsh & Hh) Ht]; subst).
+  all: try (lazymatch goal with
+            | Hk : kind_of _ _ = _ |- _ => idtac
+            | I : once_cur ?c ?ds _ ?d _ |- _ => destruct (kind_of c (d_lvl (dnth d ds))) eqn:?
+            end).
+  (* a deme finishes *)
+  all: try solve [ eapply once_finish; [exact Hn | exact Hf | exact I | | | | | reflexivity]; cbn [demes]; try side_upd;
+                   upd_d; simpl; auto;
+                   destruct I as (Hsub & Ho); destruct (Ho d Hd) as (_ & B & _); specialize (B eq_refl);
+                   match goal with Hk : kind_of _ _ = _ |- _ => rewrite Hk in B, Hsub end; simpl in B, Hsub; try discriminate; lia ].
+  (* the running deme moves to its next control point *)
+  all: try solve [ unfold ONCE; cbn [pc demes]; eapply once_stay; [exact I | exact Hd | exact Hni | | | | | | ]; try side_upd; upd_d; simpl; auto;
+                   destruct I as (Hsub & Ho);
+                   match goal with Hk : kind_of _ _ = _ |- _ => rewrite Hk in *; simpl in *; try discriminate; try reflexivity; try lia end ].
+  all: try solve [ unfold ONCE; cbn [pc demes]; exact I ].
+  - (* a metaepoch begins *)
+    destruct W as (_ & W). unfold ONCE. rewrite begin_deme_pc. set (ds' := map (mark_step (hib_on c)) (demes s)).
+    assert (forall i, i < length (demes s) -> dnth i ds' = mark_step (hib_on c) (dnth i (demes s))) as M by (intros; now apply dnth_map).
+    assert (length ds' = length (demes s)) as L' by apply map_length.
+    assert (forall i, i < length (demes s) -> d_should (dnth i ds') = true -> In i (rev (level_order (height c) d_should ds'))) as Hin.
+    { intros i Hi Hs. apply in_rev. rewrite rev_involutive. apply level_order_spec. rewrite L'. repeat split; auto.
+      rewrite M by assumption. simpl. apply (W i Hi). }
+    destruct (rev (level_order (height c) d_should ds')) as [|d t] eqn:E.
+    + rewrite (proj1 (begin_deme_fields c [] _)). cbn [demes]. intros i Hi. rewrite L' in Hi.
+      destruct (d_should (dnth i ds')) eqn:Hs; [destruct (Hin i Hi Hs)|]. rewrite M by assumption. simpl. lia.
+    + rewrite (proj1 (begin_deme_fields c (d :: t) _)). cbn [demes]. split.
+      * destruct (kind_of c (d_lvl (dnth d ds'))); reflexivity.
+      * intros i Hi. rewrite L' in Hi. repeat split.
+        -- intros _. rewrite M by assumption. simpl. lia.
+        -- intros ->. rewrite M by assumption. simpl. destruct (kind_of c _); simpl; lia.
+        -- intros Hnin Hne. destruct (d_should (dnth i ds')) eqn:Hs.
+           ++ destruct (Hin i Hi Hs) as [->|Hx]; [contradiction|contradiction].
+           ++ rewrite M in * by assumption. simpl in *. lia.
+  - unfold ONCE. cbn [pc demes]. destruct v; exact I.
+  - (* sprouting *)
+    sprout_abs. unfold ONCE. cbn [pc demes].
+    set (ds1 := do_sprout (mcount s) seeds inits (fun i => d_lvl (dnth i (demes s))) (demes s)).
+    assert (once_rest ds1) as R1.
+    { intros i Hi. subst ds1. rewrite do_sprout_length in Hi. destruct (Nat.ltb_spec i (length (demes s))) as [Hold|Hnew].
+      - rewrite do_sprout_prefix by assumption. now apply I.
+      - destruct (do_sprout_new (mcount s) seeds inits (fun i => d_lvl (dnth i (demes s))) (demes s) i) as (p & _ & Hd); [lia|].
+        cbv zeta in Hd. destruct Hd as (_ & _ & _ & _ & _ & -> & -> & -> & _). reflexivity. }
+    destruct (hib_on c); [|exact R1]. intros i Hi. rewrite set_hibs_length in Hi. rewrite set_hibs_dnth by assumption.
+    destruct (existsb _ _); [simpl|]; now apply R1.
+Qed.
+
+(* ================================================================ Inv6 (C05): bounded wind-down once the global stop condition was observed true *)
+Definition WD (s : st) : Prop :=
+  steps s = mcount s /\ born_after_seen s = 0 /\
+  (seen s = false -> forall i, i < length (demes s) -> d_after (dnth i (demes s)) = 0) /\
+  (seen s = true ->
+     (forall i, i < length (demes s) -> d_after (dnth i (demes s)) <= 1) /\
+     match pc s with
+     | PDeme t d g sub => (forall x, In x t -> d_after (dnth x (demes s)) = 0) /\
+                          match sub with SGen | SLocal => d_after (dnth d (demes s)) = 0 | SGsc => True | _ => False end
+     | PSprout => False
+     | _ => True
+     end).
+
+Definition keeps_after (f : deme -> deme) : Prop := forall d, d_after (f d) = d_after d.
+Lemma ka_append : keeps_after append_meta. Proof. intros d; reflexivity. Qed.
+Lemma ka_deact : keeps_after deactivate. Proof. intros d; reflexivity. Qed.
+Lemma ka_mark h : keeps_after (mark_step h). Proof. intros d; reflexivity. Qed.
+Lemma ka_add0 n : keeps_after (add_evals n 0). Proof. intros d; simpl; lia. Qed.
+Lemma after_upd_keep i f l j : keeps_after f -> d_after (dnth j (upd i f l)) = d_after (dnth j l).
+Proof. intros Hf. rewrite dnth_upd. destruct (_ && _); auto. Qed.
+
+(* after a finished deme, the next one (if any) has not iterated since the condition was seen *)
+Lemma WD_finish c t s0 :
+  steps s0 = mcount s0 -> born_after_seen s0 = 0 ->
+  (seen s0 = false -> forall i, i < length (demes s0) -> d_after (dnth i (demes s0)) = 0) ->
+  (seen s0 = true -> (forall i, i < length (demes s0) -> d_after (dnth i (demes s0)) <= 1) /\ (forall x, In x t -> d_after (dnth x (demes s0)) = 0)) ->
+  WD (begin_deme c t s0).
+Proof.
+  intros H1 H2 H3 H4. unfold WD. rewrite begin_deme_pc. destruct (begin_deme_fields c t s0) as (-> & -> & -> & -> & _ & -> & _).
+  repeat split; auto; try (now apply H4).
+  destruct t as [|d' t']; [exact Logic.I|]. destruct (H4 H) as (_ & Hz). split.
+  - intros x Hx. apply Hz. now right.
+  - specialize (Hz d' (or_introl eq_refl)). destruct (kind_of c _); simpl; exact Hz.
+Qed.
+
+Lemma WD_init n : WD (init n).
+Proof. unfold WD. simpl. repeat split; auto; try discriminate. intros _ [|i] Hi; [reflexivity|lia]. Qed.
+
+Lemma WD_step c s e s' : PcOK c s -> WD s -> step c s e = Some s' -> WD s'.
+Proof.
+  intros P (W1 & W2 & W3 & W4) H. unfold PcOK in P. destruct (seen s) eqn:Hseen.
+  - (* the condition has been seen *)
+    destruct (W4 eq_refl) as (Wle & Wpc). clear W3 W4.
+    unfold step in H. rewrite Hseen in H. step_cases H; kind_cases; bd; rewrite ?Hseen in *.
+    all: try (destruct P as (Hn & Hf); inversion Hn as [|? ? Hni Hnt]; subst; inversion Hf as [|? ? (Hd & _) Ht]; subst).
+    all: try (destruct Wpc as (Wt & Wd)); try contradiction.
+    all: try match goal with Hb : (_ || true && negb false)%bool = false |- _ => rewrite orb_true_r in Hb; discriminate end.
+    all: try solve [ unfold WD; cbn [steps mcount born_after_seen seen demes pc]; repeat split; auto; discriminate ].
+    all: try solve [ apply WD_finish; cbn [steps mcount born_after_seen seen demes]; auto; try discriminate; intros _; split;
+                     [ intros i Hi; rewrite ?upd_length in Hi; rewrite ?after_upd_keep by (apply ka_append || apply ka_deact); auto
+                     | intros x Hx; rewrite ?after_upd_keep by (apply ka_append || apply ka_deact); auto ] ].
+    all: try match goal with |- WD (begin_deme _ _ _) => apply WD_finish; cbn [steps mcount born_after_seen seen demes]; auto; try discriminate; intros _; split end.
+    all: try (unfold WD; cbn [steps mcount born_after_seen seen demes pc]; split; [assumption|]; split; [assumption|]; split; [discriminate|]; intros _; split; [|split; [|exact Logic.I]]).
+    all: try (intros i Hi; rewrite ?upd_length in Hi; repeat (rewrite after_upd_keep by (apply ka_append || apply ka_deact));
+              rewrite dnth_upd; destruct (Nat.eqb_spec d i) as [<-|Ne]; simpl; [destruct (d <? length (demes s)); simpl; rewrite ?Wd; auto; lia | auto]).
+    all: try (intros x Hx; repeat (rewrite after_upd_keep by (apply ka_append || apply ka_deact));
+              rewrite dnth_upd_other by (intros Exd; rewrite Exd in *; contradiction); auto).
+    (* PStepGsc *)
+    match goal with Hb : (_ || true && negb ?v)%bool = false |- _ => destruct v; [|rewrite orb_true_r in Hb; discriminate] end.
+    unfold WD; cbn [steps mcount born_after_seen seen demes pc]. repeat split; auto. discriminate.
+  - (* nothing seen yet: every counter is zero and stays zero, whatever happens, until a consult returns true *)
+    specialize (W3 eq_refl). clear W4.
+    unfold step in H. rewrite Hseen in H. step_cases H; kind_cases; bd; rewrite ?Hseen in *; cbn [orb andb b2n] in *.
+    all: try (destruct P as (Hn & Hf); inversion Hn as [|? ? Hni Hnt]; subst; inversion Hf as [|? ? (Hd & _) Ht]; subst).
+    all: try match goal with v : bool |- _ => destruct v end; cbn [orb] in *.
+    all: try match goal with |- WD (begin_deme _ _ _) => apply WD_finish; cbn [steps mcount born_after_seen seen demes]; auto; try lia end.
+    all: try (unfold WD; cbn [steps mcount born_after_seen seen demes pc]; split; [auto; lia|]; split; [auto; lia|]; split).
+    all: try discriminate.
+    all: try (intros _).
+    all: try match goal with |- _ /\ _ => split end.
+    all: try exact Logic.I.
+    all: try (intros i Hi; rewrite ?upd_length, ?map_length in Hi;
+              repeat (rewrite after_upd_keep by (apply ka_append || apply ka_deact || apply ka_add0)); try (rewrite dnth_map by assumption; simpl);
+              rewrite ?W3 by assumption; auto).
+    all: try (intros x Hx; repeat (rewrite after_upd_keep by (apply ka_append || apply ka_deact || apply ka_add0));
+              apply W3; rewrite Forall_forall in Ht; apply (Ht x Hx)).
+    all: try (apply W3; match goal with Ht : Forall _ ?t, Hx : In _ ?t |- _ => rewrite Forall_forall in Ht; apply (Ht _ Hx) end).
+    (* sprouting: the new demes start with a zero counter *)
+    sprout_abs. assert (d_after (dnth i (do_sprout (mcount s) seeds inits (fun i => d_lvl (dnth i (demes s))) (demes s))) = 0) as Z.
+    { destruct (Nat.ltb_spec i (length (demes s))) as [Hold|Hnew]; [rewrite do_sprout_prefix by assumption; now apply W3|].
+      destruct (hib_on c); rewrite ?set_hibs_length, do_sprout_length in Hi;
+      (destruct (do_sprout_new (mcount s) seeds inits (fun i => d_lvl (dnth i (demes s))) (demes s) i) as (p & _ & Hd); [lia|]);
+      cbv zeta in Hd; now destruct Hd as (_ & _ & _ & _ & _ & _ & _ & _ & ->). }
+    destruct (hib_on c); [|exact Z]. rewrite set_hibs_length in Hi. rewrite set_hibs_dnth by assumption.
+    destruct (existsb _ _); [simpl|]; exact Z.
+Qed.
+
+(* ================================================================ Inv7 (C18): hibernation *)
+Definition mem (i : nat) (l : list nat) : bool := existsb (Nat.eqb i) l.
+Definition HIB (c : cfg) (s : st) : Prop :=
+  (hib_on c = false -> forall i, i < length (demes s) -> d_hib (dnth i (demes s)) = false) /\
+  (hib_on c = true -> forall i, i < length (demes s) ->
+     let d := dnth i (demes s) in
+     (d_active d = true -> S (d_lvl d) < height c -> d_hib d = mem i (fst (last_round s)) && negb (mem i (snd (last_round s)))) /\
+     (d_hib d = true -> d_hibmark d = (d_evals d, d_meta d))).
+
+Lemma mem_spec i l : mem i l = true <-> In i l.
+Proof. unfold mem. rewrite existsb_exists. split; [intros (x & Hx & E); apply Nat.eqb_eq in E; now subst | intros H; exists i; split; auto; apply Nat.eqb_refl]. Qed.
+Lemma mem_sprouted seeds i : mem i (map fst (filter (fun pk : nat * list Z => negb (Nat.eqb (length (snd pk)) 0)) seeds)) = has_seeds seeds i.
+Proof.
+  unfold mem, has_seeds. induction seeds as [|[p ks] r IH]; simpl; [reflexivity|].
+  destruct (Nat.eqb (length ks) 0) eqn:E; simpl; rewrite IH.
+  - now rewrite andb_false_r.
+  - rewrite andb_true_r. now rewrite (Nat.eqb_sym i p).
+Qed.
+
+Definition keeps_hib (f : deme -> deme) : Prop :=
+  forall d, d_hib (f d) = d_hib d /\ d_hibmark (f d) = d_hibmark d /\ d_lvl (f d) = d_lvl d /\ (d_active (f d) = true -> d_active d = true).
+Lemma kh_add n k : keeps_hib (add_evals n k). Proof. intros d; simpl; auto. Qed.
+Lemma kh_append : keeps_hib append_meta. Proof. intros d; simpl; auto. Qed.
+Lemma kh_deact : keeps_hib deactivate. Proof. intros d; simpl; repeat split; auto; discriminate. Qed.
+
+(* an update of the RUNNING deme (which is awake when hibernation is on) keeps the invariant *)
+Lemma HIB_upd c s ds' d f :
+  HIB c s -> keeps_hib f -> d < length (demes s) -> (hib_on c = true -> d_hib (dnth d (demes s)) = false) ->
+  ds' = upd d f (demes s) ->
+  HIB c (with_state s (mcount s) ds' (pc s) (seen s) (steps s) (clock s) (born_after_seen s) (last_round s)).
+Proof.
+  intros (H0 & H1) Hf Hd Hh ->. unfold HIB, with_state. cbn [demes last_round]. rewrite upd_length. split.
+  - intros Hoff i Hi. rewrite dnth_upd. destruct (_ && _); [destruct (Hf (dnth i (demes s))) as (-> & _)|]; auto.
+  - intros Hon i Hi. rewrite dnth_upd. destruct (Nat.eqb_spec d i) as [<-|N]; simpl; [|now apply H1].
+    destruct (d <? length (demes s)); [|now apply H1]. destruct (Hf (dnth d (demes s))) as (E1 & E2 & E3 & E4).
+    cbv zeta. rewrite E1, E3. destruct (H1 Hon d Hd) as (A & B). split; [intros Ha; apply A; auto|]. rewrite (Hh Hon). discriminate.
+Qed.
+
+Lemma HIB_init c n : HIB c (init n).
+Proof. unfold HIB. simpl. split; intros _ [|i] Hi; try lia; simpl; auto. split; [reflexivity|discriminate]. Qed.
+
+Definition hib_fields (s s' : st) : Prop := demes s' = demes s /\ last_round s' = last_round s.
+Lemma HIB_same c s s' : HIB c s -> hib_fields s s' -> HIB c s'.
+Proof. intros H (E1 & E2). unfold HIB. now rewrite E1, E2. Qed.
+
+Definition HIBd (c : cfg) (ds : list deme) (lr : list nat * list nat) : Prop :=
+  (hib_on c = false -> forall i, i < length ds -> d_hib (dnth i ds) = false) /\
+  (hib_on c = true -> forall i, i < length ds ->
+     let d := dnth i ds in
+     (d_active d = true -> S (d_lvl d) < height c -> d_hib d = mem i (fst lr) && negb (mem i (snd lr))) /\
+     (d_hib d = true -> d_hibmark d = (d_evals d, d_meta d))).
+Lemma HIB_HIBd c s : HIB c s <-> HIBd c (demes s) (last_round s).
+Proof. reflexivity. Qed.
+
+Lemma upd_upd i f g l : upd i f (upd i g l) = upd i (fun d => f (g d)) l.
+Proof. revert i; induction l as [|d r IH]; intros [|i]; simpl; auto. now rewrite IH. Qed.
+Lemma kh_comp f g : keeps_hib f -> keeps_hib g -> keeps_hib (fun d => f (g d)).
+Proof.
+  intros Hf Hg d. destruct (Hf (g d)) as (-> & -> & -> & A), (Hg d) as (-> & -> & -> & B). repeat split; auto.
+Qed.
+Lemma HIBd_upd c ds lr d f :
+  HIBd c ds lr -> keeps_hib f -> d < length ds -> (hib_on c = true -> d_hib (dnth d ds) = false) -> HIBd c (upd d f ds) lr.
+Proof.
+  intros (H0 & H1) Hf Hd Hh. unfold HIBd. rewrite upd_length. split.
+  - intros Hoff i Hi. rewrite dnth_upd. destruct (_ && _); [destruct (Hf (dnth i ds)) as (-> & _)|]; auto.
+  - intros Hon i Hi. rewrite dnth_upd. destruct (Nat.eqb_spec d i) as [<-|N]; simpl; [|now apply H1].
+    destruct (d <? length ds); [|now apply H1]. destruct (Hf (dnth d ds)) as (E1 & E2 & E3 & E4).
+    cbv zeta. rewrite E1, E3. destruct (H1 Hon d Hd) as (A & B). split; [intros Ha; apply A; auto|]. rewrite (Hh Hon). discriminate.
+Qed.
+Lemma HIBd_mark c ds lr : HIBd c ds lr -> HIBd c (map (mark_step (hib_on c)) ds) lr.
+Proof.
+  intros (H0 & H1). unfold HIBd. rewrite map_length. split.
+  - intros Hoff i Hi. rewrite dnth_map by assumption. simpl. auto.
+  - intros Hon i Hi. rewrite dnth_map by assumption. simpl. now apply H1.
+Qed.
+
+Lemma HIB_step c s e s' : PcOK c s -> HIB c s -> step c s e = Some s' -> HIB c s'.
+Proof.
+  intros P I H. unfold PcOK in P. rewrite HIB_HIBd in *. step_cases H; kind_cases; bd; cbn [demes last_round]; auto.
+  all: try (destruct P as (_ & Pf); inversion Pf as [|? ? (Hd & _ & _ & Hh) _]; subst).
+  all: rewrite ?upd_upd.
+  all: try solve [ apply HIBd_upd; auto; repeat (first [apply kh_comp | apply kh_add | apply kh_append | apply kh_deact]) ].
+  - now apply HIBd_mark.
+  - (* sprouting *)
+    sprout_abs. destruct I as (I0 & I1).
+    set (ds0 := demes s) in *. set (lvl_of := fun i => d_lvl (dnth i ds0)).
+    set (ds1 := do_sprout (mcount s) seeds inits lvl_of ds0).
+    assert (length ds1 = length ds0 + total_seeds seeds) as L1 by apply do_sprout_length.
+    assert (forall i, i < length ds0 -> dnth i ds1 = dnth i ds0) as Pre by (intros; now apply do_sprout_prefix).
+    assert (forall i, length ds0 <= i < length ds1 -> d_hib (dnth i ds1) = false /\ d_active (dnth i ds1) = true) as New.
+    { intros i Hi. destruct (do_sprout_new (mcount s) seeds inits lvl_of ds0 i) as (p & _ & Hd); [lia|]. cbv zeta in Hd. tauto. }
+    destruct (hib_on c) eqn:Hon.
+    + split; [discriminate|]. intros _ i Hi. rewrite set_hibs_length in Hi. rewrite set_hibs_dnth by assumption. cbn [fst snd Nat.add].
+      set (parts := ids (fun d => d_active d && (S (d_lvl d) <? height c)) ds0).
+      destruct (Nat.ltb_spec i (length ds0)) as [Hold|Hnew].
+      * rewrite Pre by assumption. destruct (I1 eq_refl i Hold) as (A & B). fold (mem i parts). rewrite mem_sprouted.
+        destruct (mem i parts) eqn:Hm.
+        -- cbv zeta. simpl. split; [reflexivity|]. destruct (has_seeds seeds i); simpl; [discriminate|].
+           intros _. destruct (d_hib (dnth i ds0)) eqn:Hh; simpl; [now apply B|reflexivity].
+        -- split; [|exact B]. intros Ha Hl. exfalso. assert (In i parts) as Hin; [|apply mem_spec in Hin; congruence].
+           apply ids_spec. split; [assumption|]. rewrite Ha. simpl. now apply Nat.ltb_lt.
+      * destruct (New i (conj Hnew Hi)) as (Nh & Na).
+        assert (mem i parts = false) as Hm.
+        { destruct (mem i parts) eqn:E; [|reflexivity]. apply mem_spec, ids_spec in E as (E & _). lia. }
+        fold (mem i parts). rewrite Hm. cbv zeta. rewrite Nh. split; [reflexivity|discriminate].
+    + split; [|discriminate]. intros _ i Hi. destruct (Nat.ltb_spec i (length ds0)) as [Hold|Hnew].
+      * rewrite Pre by assumption. now apply I0.
+      * apply New. lia.
+Qed.
